@@ -99,6 +99,7 @@ class Ctx:
         self.samples = []
         self.notes = []
         self.cfgs_used = []
+        self._alias = None     # while a clause of another property is evaluated: {foreign rule id -> own rule id}
 
     def facts(self, cfg):
         if cfg not in self._facts:
@@ -107,18 +108,44 @@ class Ctx:
             self.cfgs_used.append(cfg)
         return self._facts[cfg]
 
+    def shared(self, mapping, fn, *args):
+        """Evaluate a clause that another property's module implements (fn reports under that module's rule ids) as a
+        clause of THIS property: ids in `mapping` are renamed, everything else fn reports is dropped.  A structural
+        condition that is necessary for two properties is decided once and reported by both."""
+        old = self._alias
+        self._alias = dict(mapping)
+        try:
+            return fn(*args)
+        finally:
+            self._alias = old
+
+    def _rid(self, rid):
+        if self._alias is None:
+            return rid
+        return self._alias.get(rid)
+
     def rule(self, rid, template):
+        if self._alias is not None and rid not in self.rules:
+            rid = self._rid(rid)
+            if rid is None:
+                return None
         if rid not in self.rules:
             self.rules[rid] = Rule(rid, template)
         return self.rules[rid]
 
     def ok(self, rid, key, detail=None, nontrivial=True):
+        rid = self._rid(rid)
+        if rid is None:
+            return
         self.rules[rid].instances.append((key, True, detail, nontrivial))
         if detail is not None and len(self.samples) < 400:
             self.samples.append({'rule': rid, 'instance': key, 'verdict': 'holds', 'detail': detail})
 
     def violation(self, rid, key, msg, site=None, fn=None, cfg=None, detail=None):
         """key: discriminator WITHOUT line numbers; full key = rid:fn:key"""
+        rid = self._rid(rid)
+        if rid is None:
+            return None
         full = '%s:%s:%s' % (rid, fn or '-', key)
         self.rules[rid].instances.append((full, False, msg, True))
         v = self.violations.get(full)
@@ -132,6 +159,16 @@ class Ctx:
         return full
 
     def floor(self, rid, expected, got, what, cfg=None):
+        rid0, rid = rid, self._rid(rid)
+        if rid is None:
+            return
+        if self._alias is not None:
+            # report through violation() with the already renamed id
+            old, self._alias = self._alias, None
+            try:
+                return self.floor(rid, expected, got, what, cfg)
+            finally:
+                self._alias = old
         r = self.rules[rid]
         r.floor = (expected, got)
         if got < expected:
